@@ -71,7 +71,7 @@ func genText(g *genCtx) {
 		}
 		nr := 250
 		if g.thorough() {
-			nr = 12000
+			nr = 60000
 		}
 		for _, coding := range textCodings {
 			emit(Case{"k": "codec", "coding": coding, "text": []int{}})
